@@ -491,14 +491,18 @@ def run_job(job: Job, meta, workdir: Path):
         res.wall_s = time.time() - t0
 
 
-def trace_for(job: Job, meta, workdir: Path, pid):
-    """second, narrowed run: counterexample trace for one failed property"""
+def trace_for(job: Job, meta, workdir: Path, pid, sliced=False):
+    """second, narrowed run: counterexample trace for one failed property.
+    sliced=True keeps --slice-formula (fast, but nondet values the property does not depend on may be missing from the trace: the
+    replay then stops at a failing kani::assume or runs out of values, which playback() reports as a machinery failure and the
+    caller falls back to the unsliced run - what Kani's own concrete playback does)"""
     goto = str(workdir / (Path(meta["goto_file"]).name.replace(".symtab.out", "") + ".goto"))
     loops = show_loops(goto) if job.unwindset else []
     args, _, _ = cbmc_args(job, meta, loops)
     # like Kani's concrete playback: no formula slicing, so that every nondet value shows up in the trace
-    args = [a for a in args if a != "--slice-formula"]
-    outp = workdir / f"{job.harness}.trace.json"
+    if not sliced:
+        args = [a for a in args if a != "--slice-formula"]
+    outp = workdir / f"{job.harness}.trace{'-sliced' if sliced else ''}.json"
     cmd = ["cbmc"] + args + [goto, "--json-ui", "--trace", "--property", pid]
     rc, _, _ = sh(cmd, timeout=max(job.timeout, 600) * 2, logf=str(outp), mem_gb=job.mem_gb * 2)
     data, _ = parse_cbmc_json(outp)
@@ -554,7 +558,7 @@ def playback(ov: Overlay, module, harness, vals, release=False, tag="x"):
                 case = json.loads(line[k + len("REPLAY-CASE "):])
             except Exception:
                 case = {"raw": line[k:]}
-    if "Not enough det vals found" in so or "concrete_playback.rs" in so:
+    if "Not enough det vals found" in so or "concrete_playback.rs" in so or "kani::assume` should always hold" in so:
         return None, case, "replay machinery: the extracted value list does not match the harness's kani::any() calls\n" + so[-1500:]
     ran = re.search(r"test result: (ok|FAILED)\. (\d+) passed; (\d+) failed", so)
     if not ran or (int(ran.group(2)) + int(ran.group(3))) == 0:
@@ -690,12 +694,19 @@ def run_property(prop, tier, seed):
                 if desc in seen_desc:
                     continue
                 seen_desc.add(desc)
-                vals = trace_for(j, table[names[i]], work, ppid)
+                rep_dev = None
+                for sliced in (True, False):
+                    vals = trace_for(j, table[names[i]], work, ppid, sliced=sliced)
+                    if vals is None:
+                        continue
+                    tag = hashlib.sha256(json.dumps(vals).encode()).hexdigest()[:10]
+                    rep_dev, case, tail = playback(ov, j.module, j.harness, vals, release=False, tag=tag)
+                    if rep_dev is not None:
+                        break
+                    # value list did not fit the harness (sliced trace): take the full trace
                 if vals is None:
                     notes.append(f"{j.harness}: no trace obtained for {ppid}")
                     continue
-                tag = hashlib.sha256(json.dumps(vals).encode()).hexdigest()[:10]
-                rep_dev, case, tail = playback(ov, j.module, j.harness, vals, release=False, tag=tag)
                 rep_rel = None
                 if not rep_dev:
                     rep_rel, case2, tail2 = playback(ov, j.module, j.harness, vals, release=True, tag=tag)
